@@ -251,9 +251,16 @@ func (ex *Exec) assign(st *State, lhs ast.Expr, v *Val) {
 
 // assignBack writes a container value back to where it came from.
 func (ex *Exec) assignBack(st *State, x ast.Expr, v *Val) {
-	switch x.(type) {
+	switch xx := x.(type) {
 	case *ast.Ident, *ast.SelectorExpr, *ast.StarExpr, *ast.IndexExpr, *ast.ParenExpr:
 		ex.assign(st, x, v)
+	case *ast.CallExpr:
+		// w.Header() of a ResponseWriter: the map it returns is the writer's own (reference semantics)
+		if loc := ex.respHeaderLoc(st, xx); loc != nil {
+			ex.writeLoc(st, loc, v)
+			return
+		}
+		ex.note("container update lost at %s", ex.pos(x.Pos()))
 	default:
 		ex.note("container update lost at %s", ex.pos(x.Pos()))
 	}
